@@ -41,9 +41,50 @@ def _worker(args):
     return ctx.export()
 
 
+def _line_coverage(path):
+    """VERIF_COVER=<file>: record which lines of the forsys package under test execute during this run (sys.monitoring,
+    each location reported once), merged into <file> as {relative file: [lines]}. Used by tools/auto_mutants.py."""
+    import atexit
+    mon = sys.monitoring
+    tool = mon.COVERAGE_ID
+    root = os.path.realpath(os.environ.get("FORSYS_REPO", "/repo")) + os.sep + "forsys" + os.sep
+    hits = set()
+
+    def on_line(code, line):
+        fn = code.co_filename
+        if fn.startswith(root):
+            hits.add((fn[len(root):], line))
+        return mon.DISABLE
+
+    mon.use_tool_id(tool, "verif-cover")
+    mon.register_callback(tool, mon.events.LINE, on_line)
+    mon.set_events(tool, mon.events.LINE)
+
+    def dump():
+        data = {}
+        if os.path.exists(path):
+            try:
+                with open(path) as f:
+                    data = json.load(f)
+            except Exception:
+                data = {}
+        for fn, ln in hits:
+            data.setdefault(fn, [])
+            if ln not in data[fn]:
+                data[fn].append(ln)
+        for fn in data:
+            data[fn].sort()
+        with open(path, "w") as f:
+            json.dump(data, f)
+
+    atexit.register(dump)
+
+
 def main():
     _reexec_hashseed()
     os.environ["FORSYS_VERIF"] = "1"
+    if os.environ.get("VERIF_COVER"):
+        _line_coverage(os.environ["VERIF_COVER"])
     ap = argparse.ArgumentParser()
     ap.add_argument("prop")
     ap.add_argument("--tier", default=os.environ.get("VERIF_TIER", "quick"), choices=["quick", "thorough"])
